@@ -114,7 +114,7 @@ def gen(tier, rng):
         progs = range(len(PROGRAMS[mapping]))
         for pi in progs:
             for kstyle in (("dec", "hex", "bin") if tier == "thorough" else (rng.choice(["dec", "hex", "bin"]),)):
-                yield {"fmt": fmt, "mapping": mapping, "copier": copier, "prog": pi, "k": rng.choice([5, 0x7F, 0xFF, 0x12]), "kstyle": kstyle,
+                yield {"fmt": fmt, "mapping": mapping, "copier": copier, "prog": pi, "k": rng.choice([5, 0x7F, 0xFF, 0x12, 0, 0]), "kstyle": kstyle,
                        "extra_define": rng.random() < 0.5}
 
 
